@@ -10,17 +10,19 @@ from .common import public_get
 from .clientworld import build_mirror, client_opts, delivered_events, event_summary, feed, make_callback, make_client, msg, part, snapshot
 
 EXPLANATION = (
-    "C16.FILTER: _CallbackConfig.accepts_event is evaluated exhaustively over filter (absent / equal / different) for device, vector and "
-    "element x event kind (value / state / definition update: which fields the event carries) x event-type filter (4 classes): accepted "
-    "iff every given filter equals a carried field and the event is an instance of the type. C16.RM: rmonevent is evaluated over all 2^6 "
-    "combinations of its six criteria on a registry of four configurations: exactly the configurations matching every given criterion are "
-    "removed, from a snapshot. C16.CONTAIN: trigger_event is interpreted with three accepting callbacks where each may raise: every "
-    "callback is invoked exactly once with the event on every path and nothing escapes. C16.REGISTRY: the callbacks list is written only "
-    "by onevent (append of the new configuration, returning its uuid), rmonevent (remove) and the constructor, is never rebound while "
-    "trigger_event walks the live list, and trigger_event reads it at dispatch time. C16.IFF: abstract message streams (as in C15) are fed to a client with one catch-all callback: for every update "
-    "step the delivered ValueUpdate/StateUpdate events are exactly the changes between the mirror before and after, each once, with "
-    "old = previous mirror value and new = current value; a definition raises DefinitionUpdate. C16.CHAIN: on re-definition of an "
-    "existing property the events' old values must be the previous mirror values and unchanged values must raise nothing."
+    'C16.FILTER: _CallbackConfig.accepts_event is evaluated exhaustively over filter (absent / equal / different) for device, vector and element '
+    'x event kind (value / state / definition update: which fields the event carries) x event-type filter (4 classes): accepted iff every given '
+    'filter equals a carried field and the event is an instance of the type. C16.RM: rmonevent is evaluated over all 2^6 combinations of its six '
+    'criteria on a registry of four configurations: exactly the configurations matching every given criterion are removed, from a snapshot. '
+    'C16.CONTAIN: trigger_event is interpreted with three accepting callbacks where each may raise: every callback is invoked exactly once with '
+    'the event on every path and nothing escapes. C16.REGISTRY: the callbacks list is written only by onevent (append of the new configuration, '
+    'returning its uuid), rmonevent (remove) and the constructor, is never rebound while trigger_event walks the live list, and trigger_event '
+    'reads it at dispatch time. C16.IFF: abstract message streams (as in C15) are fed to a client with one catch-all callback: for every update '
+    'step the delivered ValueUpdate/StateUpdate events are exactly the changes between the mirror before and after, each once, with old = '
+    'previous mirror value and new = current value; a definition raises DefinitionUpdate. C16.ATOMIC: for every client element class, on every '
+    'path of process_message that raises while decoding or validating an update (int()/float() of attacker text, b64decode, assertions) the '
+    "element's public value is still the old one - the element is taken from a mirror the real client code built. C16.CHAIN: on re-definition of "
+    "an existing property the events' old values must be the previous mirror values and unchanged values must raise nothing."
 )
 NOT_DECIDED = "the chain property over all streams (it follows per step from IFF+CHAIN); callbacks registered or removed during dispatch."
 ASSUMPTIONS = ["callbacks do not mutate the registry while trigger_event iterates it (outside the property's quantifier)"]
